@@ -18,7 +18,9 @@ Inductive event :=
 | EvAdd (a b : value)
 | EvCall (f : value) (args : list value)
 | EvGet (o : value) (k : string)                         (* property read o.k *)
-| EvCallT (f this : value) (args : list value).          (* call of f with an explicit receiver *)
+| EvCallT (f this : value) (args : list value)           (* call of f with an explicit receiver *)
+| EvSet (o : value) (k : string) (v : value)             (* property write o.k = v *)
+| EvWrite (x : string) (v : value).                      (* assignment to a user variable *)
 Definition hist := list event.
 Inductive resp := RRet (v : value) | RThr (v : value).
 
@@ -33,6 +35,10 @@ Inductive expr :=
 | Add (l r : expr)
 | CallE (f : expr) (a : expr)                    (* unary call: enough for the spike *)
 | Par (e : expr)                                 (* parentheses written by the user: not an identifier, not a [+] *)
+| AddAsgV (x : string) (e : expr)                (* x += e *)
+| AddAsgM (o : expr) (k : string) (e : expr)     (* o.k += e *)
+| AsgV (x : string) (e : expr)                   (* x = e, as the rewriter builds it *)
+| AsgM (o : expr) (k : string) (e : expr)        (* o.k = e, as the rewriter builds it *)
 | MCall0 (o : expr) (m : string)                 (* method call o.m() *)
 | CallT0 (f this : expr)                         (* f.call(this) *)
 | MCall1 (o : expr) (m : string) (a : expr)      (* method call o.m(a) *)
@@ -83,6 +89,20 @@ Fixpoint eval (e : expr) (s : st) : out * st :=
   | Add l r => bind (eval l s) (fun a s1 => bind (eval r s1) (fun b s2 => do_add a b s2))
   | CallE f a => bind (eval f s) (fun vf s1 => bind (eval a s1) (fun va s2 => fire (EvCall vf [va]) s2))
   | Par e => eval e s
+  | AddAsgV x e =>
+      (* the variable is read first, then the right-hand side is evaluated, then the sum is stored *)
+      let v1 := ustore (fst s) x in
+      bind (eval e s) (fun v2 s2 => bind (do_add v1 v2 s2) (fun r s3 =>
+      bind (fire (EvWrite x r) s3) (fun _ s4 => (Ret r, s4))))
+  | AddAsgM o k e =>
+      bind (eval o s) (fun vo s1 => bind (fire (EvGet vo k) s1) (fun v1 s2 =>
+      bind (eval e s2) (fun v2 s3 => bind (do_add v1 v2 s3) (fun r s4 =>
+      bind (fire (EvSet vo k r) s4) (fun _ s5 => (Ret r, s5))))))
+  | AsgV x e =>
+      bind (eval e s) (fun r s1 => bind (fire (EvWrite x r) s1) (fun _ s2 => (Ret r, s2)))
+  | AsgM o k e =>
+      bind (eval o s) (fun vo s1 => bind (eval e s1) (fun r s2 =>
+      bind (fire (EvSet vo k r) s2) (fun _ s3 => (Ret r, s3))))
   | MCall0 o m =>
       bind (eval o s) (fun vo s1 => bind (fire (EvGet vo m) s1) (fun vf s2 => fire (EvCallT vf vo []) s2))
   | CallT0 f this =>
@@ -189,6 +209,20 @@ Definition rw_mcall0 (o' : expr) (m : string) (c1 : nat) : expr * nat :=
   let '(r, br, c3) := if is_lit o' then (o', [], c1) else (Tmp c1, [(c1, o')], S c1) in
   (wrap (br ++ [(c3, Get r m)]) (Hook (CallT0 (Tmp c3) r) [Tmp c3; r]), S c3).
 
+(** [assign_add_transform]: [target += e] becomes [target = hook(target + e, ..)]; a sum on the right keeps its
+    grouping (it is parenthesised); the object of a member target is captured unless it is an identifier or a
+    literal, and what is left of the target is read once into a temporary by the binary transformation. *)
+Definition group_sum (e' : expr) : expr := match e' with Add _ _ => Par e' | _ => e' end.
+
+Definition rw_addasg_v (x : string) (e' : expr) (c1 : nat) : expr * nat :=
+  let '(sum, c2) := rw_add (Var x) (group_sum e') c1 in
+  (AsgV x sum, c2).
+
+Definition rw_addasg_m (o' : expr) (k : string) (e' : expr) (c2 : nat) : expr * nat :=
+  let '(ob, bo, c3) := if is_triv o' then (o', [], c2) else (Tmp c2, [(c2, o')], S c2) in
+  let '(sum, c4) := rw_add (Get ob k) (group_sum e') c3 in
+  (wrap bo (AsgM ob k sum), c4).
+
 Fixpoint rw (e : expr) (c : nat) : expr * nat :=
   match e with
   | Add l r =>
@@ -197,6 +231,11 @@ Fixpoint rw (e : expr) (c : nat) : expr * nat :=
       rw_add l' r' c2
   | CallE f a => let '(f', c1) := rw f c in let '(a', c2) := rw a c1 in (CallE f' a', c2)
   | Par x => let '(x', c1) := rw x c in (Par x', c1)
+  | AddAsgV x e1 => let '(e', c1) := rw e1 c in rw_addasg_v x e' c1
+  | AddAsgM o k e1 =>
+      let '(o', c1) := rw o c in
+      let '(e', c2) := rw e1 c1 in
+      rw_addasg_m o' k e' c2
   | MCall0 o m =>
       let '(o', c1) := rw o c in
       if instr m && (negb (is_lit o') || lit_ok m) then rw_mcall0 o' m c1 else (MCall0 o' m, c1)
@@ -215,6 +254,8 @@ Fixpoint src (e : expr) : Prop :=
   | Add l r => src l /\ src r
   | CallE f a => src f /\ src a
   | Par x => src x
+  | AddAsgV _ e1 => src e1
+  | AddAsgM o _ e1 => src o /\ src e1
   | MCall0 o _ => src o
   | MCall1 o _ a => src o /\ src a
   | _ => False
@@ -228,6 +269,10 @@ Fixpoint temps_in (lo hi : nat) (e : expr) : Prop :=
   | Add l r => temps_in lo hi l /\ temps_in lo hi r
   | CallE f a => temps_in lo hi f /\ temps_in lo hi a
   | Par x => temps_in lo hi x
+  | AddAsgV _ e1 => temps_in lo hi e1
+  | AddAsgM o _ e1 => temps_in lo hi o /\ temps_in lo hi e1
+  | AsgV _ e1 => temps_in lo hi e1
+  | AsgM o _ e1 => temps_in lo hi o /\ temps_in lo hi e1
   | MCall0 o _ => temps_in lo hi o
   | CallT0 f t => temps_in lo hi f /\ temps_in lo hi t
   | MCall1 o _ a => temps_in lo hi o /\ temps_in lo hi a
